@@ -154,6 +154,7 @@ def h_ops(ctx):
     g = base
     loc_cells = cells
     trace = []
+    objs = [[base, cells]]  # every grid object created on the way, with the location IT should have
     for k in range(nops):
         op = ctx.choice(f"op{k}", 5)
         trace.append(op)
@@ -165,20 +166,29 @@ def h_ops(ctx):
             _ = g.data_points
         elif op == 3:
             g = g.copy(deep=bool(k % 2))
+            objs.append([g, loc_cells])
         else:
             if kind == "esri":
                 continue
             loc_cells = not loc_cells
             g.data_location = Location.CELLS if loc_cells else Location.POINTS
-    if kind == "unstructured":
-        fresh = make_grid("uniform", dims, "F", rev, inc, loc_cells).to_unstructured()
-    else:
-        fresh = make_grid(kind, dims, "F", rev, inc, loc_cells)
+            objs[-1][1] = loc_cells
+
+    def fresh_for(lc):
+        if kind == "unstructured":
+            return make_grid("uniform", dims, "F", rev, inc, lc).to_unstructured()
+        return make_grid(kind, dims, "F", rev, inc, lc)
+
     sig = f"{kind}:{trace}"
-    ctx.check(tuple(g.data_shape) == tuple(fresh.data_shape), "data-shape-stale", {"sig": "stale-shape", "trace": sig})
-    ctx.check(g.data_size == fresh.data_size, "data-size-stale", {"sig": "stale-size", "trace": sig})
-    a, b = np.atleast_2d(g.data_points), np.atleast_2d(fresh.data_points)
-    ctx.check(a.shape == b.shape and bool(np.allclose(a, b)), "data-points-stale", {"sig": "stale-points", "trace": sig})
+    for n_obj, (obj, lc) in enumerate(objs):
+        fresh = fresh_for(lc)
+        which = "current" if obj is g else f"earlier-object-{n_obj}"
+        ctx.check(tuple(obj.data_shape) == tuple(fresh.data_shape), "data-shape-stale",
+                  {"sig": "stale-shape:" + which.split("-")[0], "trace": sig})
+        ctx.check(obj.data_size == fresh.data_size, "data-size-stale", {"sig": "stale-size:" + which.split("-")[0], "trace": sig})
+        a, b = np.atleast_2d(obj.data_points), np.atleast_2d(fresh.data_points)
+        ctx.check(a.shape == b.shape and bool(np.allclose(a, b)), "data-points-stale",
+                  {"sig": "stale-points:" + which.split("-")[0], "trace": sig})
     ctx.cover("done")
 
 
